@@ -6,6 +6,7 @@ import re
 from decimal import Decimal, InvalidOperation
 from enum import Enum
 from graphlib import CycleError, TopologicalSorter
+from collections.abc import Mapping
 from typing import TYPE_CHECKING, Any, ClassVar, Literal, Optional, Type, Union, cast
 from typing_extensions import Annotated
 
@@ -202,6 +203,14 @@ def _reject_fractional_number(value: Any) -> Any:
         and not (value.is_finite() and value == value.to_integral_value())
     ):
         raise ValueError("Value must be an integer.")
+    return value
+
+
+def _reject_non_mapping(value: Any) -> Any:
+    # pydantic builds a dict out of anything dict() accepts: a list of pairs, or even a list of
+    # two-character strings, would silently become an object. Only an object is an object.
+    if value is not None and not isinstance(value, Mapping):
+        raise TypeError("Value must be an object.")
     return value
 
 
@@ -776,6 +785,10 @@ class StepParameterSpace(OpenJDModel_v2023_09):
     taskParameterDefinitions: dict[Identifier, TaskRangeParameter]
     combination: Optional[CombinationExpr] = None
 
+    @validator("taskParameterDefinitions", pre=True)
+    def _validate_task_parameter_definitions_is_object(cls, value: Any) -> Any:
+        return _reject_non_mapping(value)
+
     @validator("combination")
     def _validate_parameter_space(cls, v: str, values: dict[str, Any]) -> str:
         if v is None:
@@ -937,6 +950,10 @@ class Environment(OpenJDModel_v2023_09):
         if values.get("script") is None and values.get("variables") is None:
             raise ValueError("Environment must have either a script or variables.")
         return values
+
+    @validator("variables", pre=True)
+    def _validate_variables_is_object(cls, value: Any) -> Any:
+        return _reject_non_mapping(value)
 
     @validator("variables")
     def _validate_variables(
@@ -2241,6 +2258,10 @@ class Job(OpenJDModel_v2023_09):
     description: Optional[Description] = None
     parameters: Optional[JobParameters] = None
     jobEnvironments: Optional[JobEnvironmentsList] = None
+
+    @validator("parameters", pre=True)
+    def _validate_parameters_is_object(cls, value: Any) -> Any:
+        return _reject_non_mapping(value)
 
 
 class JobTemplate(OpenJDModel_v2023_09):
